@@ -160,7 +160,25 @@ func monWire(v *runView) (out []finding) {
 		kind := map[id]string{}
 		done := map[id]bool{}
 		var last id
+		// a stream whose message ids restart at 1 after frames of that stream id were already on the wire is a
+		// second stream under the same id
+		reused := map[int]bool{}
+		firstDone := map[int]bool{}
 		for _, f := range v.wire[e] {
+			if !f.Garbage && f.Mid == 1 {
+				if firstDone[f.Sid] && !reused[f.Sid] {
+					reused[f.Sid] = true
+					out = append(out, finding{"C07", "stream id reused on the wire: frames of two different streams carry the same stream id (message ids restart at 1)", f.Line, map[string]any{"endpoint": e, "frame": f}})
+				}
+				if f.Done {
+					firstDone[f.Sid] = true
+				}
+			}
+		}
+		for _, f := range v.wire[e] {
+			if !f.Garbage && reused[f.Sid] {
+				continue // reported above as id reuse
+			}
 			if f.Garbage {
 				out = append(out, finding{"C07", "a transport write is not a sequence of whole well-formed frames", f.Line, map[string]any{"endpoint": e}})
 				continue
